@@ -75,6 +75,10 @@ func main() {
 		results = runC20(*tier, &sum)
 	case "C07":
 		results = runC07(*tier, &sum)
+	case "C12", "C13", "C15":
+		results = runSharedBand(*prop, *tier, &sum)
+	case "C18":
+		results = runC18(*tier, &sum)
 	default:
 		sum.Error = "no schedule scenarios for " + *prop
 	}
@@ -843,6 +847,18 @@ func freeRun(prop string, n int) {
 					gps.Time(time.Unix(1483228800+i, 0)).TimeSinceGPSEpoch()
 					airtime.CalculateLoRaAirtime(13, 12, 125, 8, airtime.CodingRate48, i%2 == 0, true)
 				})
+			}
+		case "C12", "C13", "C15":
+			for _, sh := range sharedBandScenarios(prop) {
+				sh := sh
+				b, _ := band.GetConfig(sh.name, false, lorawan.DwellTimeNoLimit)
+				if sh.prep != nil {
+					sh.prep(b)
+				}
+				for _, f := range sh.calls {
+					f := f
+					bodies = append(bodies, func() { f(b) })
+				}
 			}
 		case "C16":
 			kinds := c16Kinds()
